@@ -71,6 +71,14 @@ func TestUnquote(t *testing.T) {
 				diagnostic.NewFailure(L("<main>", P(5, 2, 5), P(14, 2, 14)), "unquote expressions cannot appear in this context"),
 			},
 		},
+		"cannot appear as a pattern outside of quote": {
+			input: `
+				var unquote_pattern(5) = 1
+			`,
+			err: diagnostic.DiagnosticList{
+				diagnostic.NewFailure(L("<main>", P(9, 2, 9), P(26, 2, 26)), "unquote expressions cannot appear in this context"),
+			},
+		},
 		"cannot be nested": {
 			input: `
 				quote
